@@ -3,7 +3,7 @@
    dispatches to the three proved classes: no userinfo and no host / name-IPv4-IDN host / IPv6 host. *)
 From Boltons Require Import Lib.Prelude Lib.C06_Text Spec.C06_Spec Model.C06_Model
   Proofs.C06_Codec Proofs.C06_Quote Proofs.C06_Lists Proofs.C06_Round Proofs.C06_Shape Proofs.C06_NoAuth
-  Proofs.C06_Ports.
+  Proofs.C06_Ports Proofs.C06_QuoteMin Proofs.C06_Parts Proofs.C06_RoundMin Proofs.C06_NoAuthMin.
 Open Scope N_scope.
 
 Section Guard.
@@ -15,7 +15,7 @@ Definition pair_okb (kv : text * option text) : bool :=
   let '(k, v) := kv in
   all_scalar (nfc k) && match v with Some v => all_scalar (nfc v) | None => nonempty (nfc k) end.
 
-Lemma pair_okb_ok kv : pair_okb kv = true -> pair_ok O kv.
+Lemma pair_okb_ok kv : pair_okb kv = true -> C06_Round.pair_ok O kv.
 Proof.
   destruct kv as [k [v|]]; cbn [pair_okb pair_ok]; intro H; apply andb_true_iff in H as [H1 H2]; split; try assumption.
   intro E. fold nfc in E. rewrite E in H2. discriminate.
@@ -86,7 +86,7 @@ Proof.
   unfold fx_guard in G. apply andb_true_iff in G as [G GH]. apply andb_true_iff in G as [GC PV].
   unfold comps_ok in GC. repeat (apply andb_true_iff in GC as [GC ?]).
   rename GC into Su. rename H into Fq0. rename H0 into Fp0. rename H1 into Sf. rename H2 into Sp.
-  assert (Fq : Forall (pair_ok O) (u_query u)).
+  assert (Fq : Forall (C06_Round.pair_ok O) (u_query u)).
   { apply Forall_forall. intros kv Hkv. apply pair_okb_ok. rewrite forallb_forall in Fq0. apply Fq0. exact Hkv. }
   pose proof (forallb_Forall _ _ Fp0) as Fp. cbn beta in Fp.
   destruct u as [scheme sep user pw fam host port path q frag]. cbn [u_scheme u_sep u_user u_pass u_family u_host u_port u_path u_query u_frag] in *.
@@ -126,4 +126,69 @@ Proof.
       apply is_ok_eq_eq in H.
       apply (fixpoint_full_v6 T O TOK scheme sep user pw fam (h0 :: hr) port rest q frag
                S1 N0 IDEM NN Su Sp Sf Fr Fq G6 H1 I6 H PV t1 u1 R P1).
+Qed.
+
+(* ---- the same for minimal quoting ---------------------------------------------------------------------- *)
+Definition nopctb (s : text) : bool := negb (memN 37 s).
+Definition pair_okmb (kv : text * option text) : bool :=
+  let '(k, v) := kv in nopctb k && match v with Some v => nopctb v | None => nonempty k end.
+
+Lemma pair_okmb_ok kv : pair_okmb kv = true -> pair_okm kv.
+Proof.
+  destruct kv as [k [v|]]; unfold pair_okmb, pair_okm, C06_Parts.pair_ok, nopct, nopctb, idt; intro H;
+    apply andb_true_iff in H as [H1 H2]; apply negb_true_iff in H1; split; try exact H1.
+  - apply negb_true_iff in H2. exact H2.
+  - intro E. subst k. discriminate.
+Qed.
+
+Definition fx_guard_min (T : tables) (O : oracles) (u : url) : bool :=
+  all_scalar (o_nfc O (u_user u)) && all_scalar (o_nfc O (u_pass u)) &&
+  nopctb (u_frag u) && forallb nopctb (u_path u) && forallb pair_okmb (u_query u) && port_wf (u_port u) &&
+  match u_host u with
+  | [] =>
+    negb (nonempty (u_user u)) && negb (nonempty (u_pass u)) && nonempty_list (u_path u) &&
+    (nonempty (u_scheme u) || noscheme (join [47] (map (quote_min T CPath) (u_path u)))) &&
+    match to_text T O false u with MOk (_ :: _) => true | _ => false end
+  | h =>
+    (* a name / IPv4 host, written as it is, that decodes to itself *)
+    u_sep u && negb (u_family u =? 6) && forallb (not_in [58; 64; 47; 63; 35]) h &&
+    match o_inet4 O h with MOk _ => true | _ => false end && is_ok_eq (decode_host O h) h
+  end.
+
+Theorem fixpoint_min_guarded T O :
+  tables_ok T = true -> delims_ok T = true ->
+  let nfc := o_nfc O in
+  nfc [] = [] -> (forall x, nfc (nfc x) = nfc x) -> (forall x, nfc x = [] -> x = []) ->
+  forall t u, url_init T O t = MOk u -> fx_guard_min T O u = true ->
+  forall m u1, to_text T O false u = MOk m -> url_init T O m = MOk u1 -> to_text T O false u1 = MOk m.
+Proof.
+  intros TOK DOK nfc N0 IDEM NN t u P G m u1 R P1.
+  destruct (parsed_shape T O t u P) as [S1' S2].
+  assert (S1 : forallb (not_in [58; 47; 63; 35]) (u_scheme u) = true).
+  { destruct (u_scheme u) as [|c0 cr] eqn:ES; [reflexivity|]. apply S1'. discriminate. }
+  clear S1'.
+  unfold fx_guard_min in G. repeat (apply andb_true_iff in G as [G ?]).
+  rename G into Su. rename H into GH. rename H0 into PV. rename H1 into Fq0. rename H2 into Fp0. rename H3 into Sf. rename H4 into Sp.
+  assert (Fq : Forall pair_okm (u_query u)).
+  { apply Forall_forall. intros kv Hkv. apply pair_okmb_ok. rewrite forallb_forall in Fq0. apply Fq0. exact Hkv. }
+  assert (Fp : Forall nopct (u_path u)).
+  { apply Forall_forall. intros x Hx. rewrite forallb_forall in Fp0. specialize (Fp0 x Hx). apply negb_true_iff in Fp0. exact Fp0. }
+  apply negb_true_iff in Sf.
+  destruct u as [scheme sep user pw fam host port path q frag]. cbn [u_scheme u_sep u_user u_pass u_family u_host u_port u_path u_query u_frag] in *.
+  destruct host as [|h0 hr].
+  - repeat (apply andb_true_iff in GH as [GH ?]).
+    apply not_nonempty in GH. apply not_nonempty in H2. subst user pw.
+    assert (NEp : path <> []) by (destruct path; [discriminate|discriminate]).
+    assert (NS : scheme = [] -> noscheme (join [47] (map (quote_min T CPath) path)) = true).
+    { intro E. subst scheme. cbn [nonempty orb] in H0. exact H0. }
+    assert (NEt : m <> []).
+    { rewrite R in H. destruct m; [discriminate|discriminate]. }
+    apply (fixpoint_min_na T O TOK DOK scheme sep fam port path q frag S1 NEp Fp Fq Sf NS m u1 R NEt P1).
+  - repeat (apply andb_true_iff in GH as [GH ?]).
+    destruct (S2 GH) as [rest EP]. subst path.
+    assert (Fr : Forall nopct rest) by (inversion Fp; assumption).
+    apply negb_true_iff in H2. apply is_ok_eq_eq in H.
+    destruct (o_inet4 O (h0 :: hr)) as [b4| |] eqn:I4; try discriminate.
+    apply (fixpoint_min_class T O TOK DOK scheme sep user pw fam (h0 :: hr) port rest q frag b4
+             S1 N0 IDEM NN Su Sp Fr Fq Sf ltac:(discriminate) H2 H1 I4 H PV m u1 R P1).
 Qed.
